@@ -19,6 +19,8 @@ RECURSIVE Perms(_, _)
 Perms(S, k) == IF k = 0 THEN { <<>> } ELSE UNION { { <<x>> \o t : t \in Perms(S \ {x}, k - 1) } : x \in S }
 \* quick: every list of up to 3 keys, plus every order of the two 4-key sets whose members all share the config id and a suite
 KL_c09_3 == UNION { Perms(Pool, k) : k \in 1..3 } \cup Perms({"K1", "K2", "K6", "K3"}, 4) \cup Perms({"K1", "K2", "K6", "K5"}, 4)
+            \* one key pair held under an old and a new config with the same id
+            \cup Perms({"K1b", "K1"}, 2) \cup Perms({"K1b", "K1", "K2"}, 3)
 KL_c09_4 == UNION { Perms(Pool, k) : k \in 1..4 }
 
 FaultOps == {"none", "svOdd", "sniNameType", "sniTwoNames", "innerSvOdd", "innerSniNameType", "innerTypeNo13", "dupEchBefore", "dupEchInnerBefore", "dupEchAfter", "eoeInOuter", "innerTypeInOuter", "badEchType", "emptyEnc", "sniNotPublic", "noOuterSni", "noInnerEch", "outerTypeInInner",
